@@ -11,17 +11,18 @@ from fpv import gen, models, k2
 from fpv.common import qstr
 
 THEOREMS = ["FP.Props.C01.pathcore_sound", "FP.Props.C01.augment_wf", "FP.Props.C01.dag_routes_valid",
-            "FP.Props.C01.decodePaths_length"]
-IMPORTS = ["FP.Props.C01", "FP.Proofs.PathCoreExample"]
-K2_ADAPTERS = ["kfd", "klae", "kmpe", "kcover"]
+            "FP.Props.C01.decodePaths_length", "FP.Props.C01.walkcore_sound", "FP.Props.C01.augment_wfc",
+            "FP.Props.C01.walk_routes_valid", "FP.Props.C14.reconstruct_euler"]
+IMPORTS = ["FP.Props.C01", "FP.Props.C14", "FP.Proofs.PathCoreExample", "FP.Proofs.WalkCoreExample"]
+K2_ADAPTERS = ["kfd", "klae", "kmpe", "kcover", "kfdc", "kcoverc", "klaec", "kmpec"]
 RULE = ("K1: random DAGs with additional starts/ends; assignments injected into edge_vars_sol are unions of 1-2 random "
         "s-t paths per layer or empty layers (non-trivial: at least one layer with a tie between selected successors or an "
         "empty layer). K2: random configurations per encoder adapter (non-trivial: LP with more than 8 lines). K5: every "
         "exported class on random small instances with random features (non-trivial: solved instance with >= 2 routes).")
 MODEL_SCOPE = ("modelled: _augment_with_source_sink, _encode_paths (10a, 10c, 7a/7b, position/length rows), "
-               "get_solution_paths, the class encoders listed under K2; walk models: see C14 for reconstruction, "
-               "walk encoding soundness not yet a theorem (end-to-end oracle only); Min* wrappers: forwarding of the user "
-               "graph is checked by the K5 oracle only")
+               "get_solution_paths, _encode_walks (17a, 17b, 21, 22a, 22b, 18a, 19c) with the three safety options off, "
+               "_build_residual_graph_for_layer + _reconstruct_eulerian_walk (C14), the class encoders listed under K2; "
+               "Min* wrappers: forwarding of the user graph is checked by the K5 oracle only; safety-option rows: see C05/C06")
 TRUSTED = ["HiGHS returns an assignment satisfying the LP when it reports kOptimal (re-checked by the end-to-end oracle on "
            "the decoded routes)"]
 ASSUMPTIONS = ["solver values of binary variables are within the tolerance of 0/1 (get_values(binary_values=True) raises otherwise)"]
@@ -148,7 +149,7 @@ def run(ctx):
         inp = k1_decode(ctx, rng)
         if it == 0:
             ctx.rep.sample({"suite": "K1.decode", "input": inp})
-    k2.run_k2(ctx, K2_ADAPTERS, ctx.n(60, 1500))
+    k2.run_k2(ctx, K2_ADAPTERS, ctx.n(40, 1000))
     per = ctx.n(8, 80)
     for cls in models.ALL_CLASSES:
         for it in range(per):
